@@ -15,11 +15,11 @@ CONFIGS = {
     "C01": {
         "kind": "mutex",
         "quick": [
-            (["m_lock_w", "m_lock_w"], 24, 600),
-            (["m_lock_w_lock_r", "m_lock_w"], 22, 900),
-            (["m_try_w", "m_lock_w"], 20, 600),
-            (["m_try_then_lock_w", "m_try_w"], 22, 600),
-            (["m_lock_w", "m_lock_w", "m_lock_w"], 20, 1200),
+            (["m_lock_w", "m_lock_w"], 30, 900),
+            (["m_lock_w_lock_r", "m_lock_w"], 28, 900),
+            (["m_try_w", "m_lock_w"], 26, 900),
+            (["m_try_then_lock_w", "m_try_w"], 28, 900),
+            (["m_lock_w", "m_lock_w", "m_lock_w"], 24, 1200),
         ],
         "thorough": [
             (["m_lock_w", "m_lock_w"], 40, 3000),
